@@ -14,12 +14,14 @@ from ..vc.sitehooks import SiteSpecHooks
 
 ENV = {}
 PURE = {'lsmr': 'obj', 'np.dot': 'real', 'np.allclose': 'bool', 'np.sum': 'real', 'np.ones': 'obj', '.dot': 'obj', 'max': 'real'}
-W = 'lsmr(Q.T, np.ones(Q.shape[1]), atol=0, btol=0, maxiter=10*max(Q.shape))[0]'
 FORMULA = 'max(1, (1.0 / np.sum(1.0 / variances)) * np.sum(estimates / variances))'
 
+# solver options (tolerances, iteration limits) are deliberately not part of the contract
 APPEND_SITES = [
     dict(func='np.append', arg=1, name='appended-variance-or-estimate',
-         spec='(same(__arg, noise**2 * np.dot(v, v)) or same(__arg, np.dot(v, y))) and same(v, %s)' % W),
+         spec='same(__arg, noise**2 * np.dot(v, v)) or same(__arg, np.dot(v, y))'),
+    dict(func='lsmr', arg=0, name='solves-the-transposed-system', spec='same(__arg, Q.T)'),
+    dict(func='lsmr', arg=1, name='right-hand-side-is-the-ones-vector', spec='same(__arg, np.ones(Q.shape[1]))'),
 ]
 COMMON = dict(pure=PURE, unpack_types={'noise': 'real'}, local_types={'variances': 'arr:real', 'estimates': 'arr:real'},
               division='abort', sqrt='nan')
